@@ -163,7 +163,7 @@ def finish(prop, tier, results, t0, level='proof', checker_cmd=None, functions=N
                 missing.append(key)
     if os.environ.get('PVC_DUMP_PROVED'):
         with open(os.environ['PVC_DUMP_PROVED'], 'w') as fh:
-            json.dump(sorted(r['oid'] for r in results if r.get('status') == 'proved' and (r.get('seconds') or 0) < 5.0), fh)
+            json.dump({r['oid']: round(r.get('seconds') or 0, 2) for r in results if r.get('status') == 'proved'}, fh)
     by_fn = {}
     for key in missing:
         by_fn.setdefault(key.split('#')[0], []).append(key)
